@@ -5,6 +5,12 @@ import cait_check as ck
 from common import run_check
 
 THEOREMS = [
+    "Pedal.Cait.c10_match_is_embedding",
+    "Pedal.Cait.c10_absent_content_no_match",
+    "Pedal.Cait.deep_good",
+    "Pedal.Cait.shallowMatch_good",
+    "Pedal.Cait.confInv_merged",
+    "Pedal.Cait.required_of_embAt",
 ]
 NOTES = [
 ]
